@@ -191,6 +191,21 @@ def e2e_binding(work):
     tests += [("Fanout: unmodified trace", "Trace_Fanout", evs, "accept"),
               ("Fanout: one delivery removed", "Trace_Fanout",
                change_first(evs, lambda e: e["ev"] == "sub_item" and e["pub"] == 1 and e["n"] == 1, lambda e: None), "flag")]
+    # Backoff (pure module): the iterator's items and what it announces through size_hint
+    cf = work.path("st-backoff-cases.jsonl")
+    open(cf, "w").write(json.dumps({"strat": "linear", "step": 5, "factor": 0, "att": 3, "capped": False, "cap": 0}) + "\n")
+    tr = work.path("st-backoff.ndjson")
+    sh([os.path.join(BIN, "pure"), "backoff", "--cases", cf, "--out", tr])
+    evs = [json.loads(x) for x in open(tr).read().split("\n") if x]
+    tests += [("Backoff: unmodified trace", "Trace_Backoff", evs, "accept"),
+              ("Backoff: one delay replaced", "Trace_Backoff",
+               change_first(evs, lambda e: e["ev"] == "next" and e["num"] == 2, lambda e: dict(e, delay=11)), "flag"),
+              ("Backoff: one item removed", "Trace_Backoff",
+               change_first(evs, lambda e: e["ev"] == "next" and e["num"] == 3, lambda e: None), "flag"),
+              ("Backoff: size_hint announces more than the schedule holds", "Trace_Backoff",
+               change_first(evs, lambda e: e["ev"] == "hint", lambda e: dict(e, lo=4)), "flag"),
+              ("Backoff: size_hint's upper bound below what is left", "Trace_Backoff",
+               change_first(evs, lambda e: e["ev"] == "hint", lambda e: dict(e, bounded=True, hi=2)), "flag")]
     for i, (name, mod, ev2, expect) in enumerate(tests):
         r = verdicts(mod, ev2, "b%d" % i)
         ok = (expect == "accept" and not r["flags"] and not r["notes"]) or (expect == "flag" and r["flags"]) or \
